@@ -17,6 +17,10 @@ GRAMMARS = {
     'named': [('start', S(C('e'), EOF_)), ('e', A(S(N('l', C('e')), N('op', T('+')), N('r', C('t'))), C('t'))), ('t', T('x'))],
     'rightrec': [('start', S(C('e'), EOF_)), ('e', A(S(C('e'), T('+'), C('e')), T('x')))],
     'noeof': [('start', C('e')), ('e', A(S(C('e'), T('+'), C('t')), C('t'))), ('t', T('x'))],
+    # a growth iteration that FAILS outright (no shorter alternative to fall back to): the seed grown so far is the result; no $, so that the longest
+    # admitted prefix is what the start rule returns
+    'optrec_noeof': [('start', C('e')), ('e', S(OPT(S(C('e'), T('+'))), C('t'))), ('t', T('x'))],
+    'cut_noeof': [('start', C('e')), ('e', A(S(C('e'), T('+'), ('cut',), C('t')), C('t'))), ('t', T('x'))],
     'leftrec_start': [('start', A(S(C('start'), T('+'), T('x')), T('x')))],
     'three_cycle': [('start', S(C('a'), EOF_)), ('a', A(S(C('b'), T('+')), T('x'))), ('b', A(S(C('c'), T('*')), T('x'))),
                     ('c', A(S(C('a'), T('-')), T('x')))],
@@ -27,7 +31,7 @@ GRAMMARS = {
     'hub': [('start', S(C('p'), EOF_)), ('a', S(C('p'), T('.'), T('x'))), ('p', A(C('a'), C('i'), T('x'))), ('i', S(C('p'), T('['), T('x'), T(']')))],
     'postfix_and_binary': [('start', S(C('e'), EOF_)), ('e', A(S(C('e'), T('+'), C('p')), C('p'))), ('p', A(S(C('p'), T('*')), T('x')))],
 }
-QUICK = ['direct', 'two_ops', 'aliased', 'mutual', 'optprefix', 'named', 'rightrec', 'noeof', 'leftrec_start', 'three_cycle', 'cut_in_leftrec', 'hub']
+QUICK = ['optrec_noeof', 'cut_noeof', 'direct', 'two_ops', 'aliased', 'mutual', 'optprefix', 'named', 'rightrec', 'noeof', 'leftrec_start', 'three_cycle', 'cut_in_leftrec', 'hub']
 SETTINGS = {'nameguard': False, 'whitespace': ''}
 REFSET = {'nameguard': False, 'whitespace': None}
 WARM = ['', 'x', 'x.x', 'x[x]', 'x.x.x', 'x[x', 'x+x', '(x)', 'x+', '+x', '(x', 'x+x+x', '((x))', 'x*x', '-x', 'x-x', 'x+*', 'x*+', 'x+x*x', 'xx', 'x+-x', 'x*', 'x+x*']
